@@ -127,11 +127,16 @@ Theorem C17_row_context_background_lost_refuted :
 Proof. exact row_context_background_lost. Qed.
 Print Assumptions C17_row_context_background_lost_refuted.
 
-Theorem C17_grid_context_background_lost_refuted :
-  exists t, painted (appendix_E_paint t) 1 LBg = true /\ painted (paint_ctx (from_box t)) 1 LBg = false /\
-            painted (paint_ctx (from_box t)) 2 LBg = true.
-Proof. exact grid_context_background_lost. Qed.
-Print Assumptions C17_grid_context_background_lost_refuted.
+(* (former finding, fixed) a grid container - like every box of the classes of point 2 - that is painted as a
+   stacking context paints its own background and border first, outside the inner q and the overflow clip *)
+Theorem C17_grid_context_paints_own_background (b : box) :
+  (knd (binfo b) = KGrid \/ knd (binfo b) = KInlineGrid) ->
+  let c := from_box b in
+  ctx_own_bg c = [EPaint (bid (binfo b)) LBg; EPaint (bid (binfo b)) LBorder] /\
+  ctx_inner c = ctx_own_bg c ++ EOpen (bid (binfo b)) BInner :: ctx_clip c ++ ctx_body c ++
+                EClose (bid (binfo b)) BInner :: ctx_outlines c.
+Proof. exact (grid_context_own_background b). Qed.
+Print Assumptions C17_grid_context_paints_own_background.
 
 Theorem C17_z_index_applied_to_non_positioned_refuted :
   exists t, before (appendix_E_paint t) 1 2 = true /\ before (paint_ctx (from_box t)) 2 1 = true /\
